@@ -124,7 +124,8 @@ func Total(args []string) {
 		}
 	}
 	mapper = mapperFor(ms)
-	hid := 0
+	hid, abandoned := 0, 0
+models:
 	for _, m := range ms {
 		syms := symbolsOf(m.Query)
 		variants := []string{"plain"}
@@ -151,6 +152,17 @@ func Total(args []string) {
 			}
 			modelBefore, paramsBefore := walkarea.DumpOf(m.Query), walkarea.DumpOf(params)
 			first := translateOnce(m.Query, mapper, params)
+			if first.abandoned {
+				// it did not come back: recorded with the time it was given; asking again would only pile up abandoned calls
+				w.Emit(map[string]any{"e": "total", "hid": hid, "text": m.Text, "class": m.Tag, "params": variant, "ok": false, "err": first.err, "panic": false, "panicmsg": "",
+					"deterministic": true, "concurrent_same": true, "model_unchanged": true, "params_unchanged": true, "ms": first.ms, "budget_ms": 5000, "nparams": len(syms.params)})
+				hid++
+				abandoned++
+				if abandoned >= 3 {
+					break models
+				}
+				continue
+			}
 			second := translateOnce(m.Query, mapper, params)
 			for rep := 0; rep < *repeats && second.ok == first.ok && second.sql == first.sql; rep++ {
 				second = translateOnce(m.Query, mapper, params)
